@@ -73,6 +73,13 @@ func genCase(t *rapid.T) Case {
 			c.Params[fmt.Sprintf("p%d_%s", i, rapid.StringMatching(`[a-z]{0,5}`).Draw(t, "pkey"))] = gen.CString(100).Draw(t, "pval")
 		}
 	}
+	if c.HasParams && rapid.IntRange(0, 3).Draw(t, "earlier-call?") == 0 {
+		c.HasEarlier = true
+		c.Earlier = map[string]string{}
+		for i, n := 0, rapid.IntRange(0, 4).Draw(t, "nearlier"); i < n; i++ {
+			c.Earlier[fmt.Sprintf("p%d_%s", rapid.IntRange(0, 9).Draw(t, "ekey"), rapid.StringMatching(`[a-z]{0,2}`).Draw(t, "ekey2"))] = gen.CString(20).Draw(t, "eval")
+		}
+	}
 	if rapid.Bool().Draw(t, "version?") {
 		c.Version = rapid.SampledFrom([]string{"15.0", "9.6.24", "psql-wire é", " "}).Draw(t, "version")
 	}
